@@ -96,9 +96,11 @@ def obs_term(o):
     toks = []
     for t in o['tokens']:
         toks.append('{| to_addr := %s; to_kind := %d; to_contract := %s; to_owner := %s; to_total := %s; to_bals := %s; '
-                    'to_ledger := %s; to_cfg := %s |}' % (
+                    'to_allow := %s; to_ledger := %s; to_cfg := %s |}' % (
                         zhex(t['addr']), t['kind'], coq_bool(t['contract']), zhex(t['owner']), oz(t['total']),
-                        coq_list([oz(b) for b in t['bals']]), coq_list([Z(v) for v in t.get('ledger') or []]),
+                        coq_list([oz(b) for b in t['bals']]),
+                        coq_list(['((%s, %s), %s)' % (zhex(o), zhex(sp), Z(v or 0)) for o, sp, v in t.get('allow') or []]),
+                        coq_list([Z(v) for v in t.get('ledger') or []]),
                         coq_list([Z(v) for v in t.get('cfg') or []])))
     return ('{| o_params := %s; o_evm_call := %s; o_send_default := %s; o_send := %s; o_addrs := %s; o_exists := %s; '
             'o_blocked := %s; o_bank := %s; o_supply := %s; o_pairs := %s; o_erc20 := %s; o_denom := %s; o_toks := %s |}' % (
@@ -128,8 +130,21 @@ def sop_term(st):
     if op in ('tok_transfer', 'tok_burn') and st.get('tok_addr') and int(st.get('amount') or 0) >= 0:
         cl = '(CTransfer %s %s)' % (zhex(st['to_hex']), Z(st['amount'])) if op == 'tok_transfer' else '(CBurn %s)' % Z(st['amount'])
         return '(STokenCall %s %s %s)' % (zhex(st['tok_addr']), zhex(st['from_hex']), cl)
+    std = op.startswith('tok_') and st.get('tok_kind') in (1, 2) and st.get('tok_addr') and int(st.get('amount') or 0) >= 0
+    if op in ('tok_approve', 'tok_inc_allow', 'tok_dec_allow') and std:
+        c = {'tok_approve': 'CApprove', 'tok_inc_allow': 'CIncAllow', 'tok_dec_allow': 'CDecAllow'}[op]
+        return '(STokenCall %s %s (%s %s %s))' % (zhex(st['tok_addr']), zhex(st['from_hex']), c, zhex(st['to_hex']), Z(st['amount']))
+    if op == 'tok_transfer_from' and std:
+        return '(STokenCall %s %s (CTransferFrom %s %s %s))' % (zhex(st['tok_addr']), zhex(st['from_hex']), zhex(st['owner_hex']),
+                                                                zhex(st['to_hex']), Z(st['amount']))
+    if op == 'tok_burn_from' and std:
+        return '(STokenCall %s %s (CBurnFrom %s %s))' % (zhex(st['tok_addr']), zhex(st['from_hex']), zhex(st['owner_hex']), Z(st['amount']))
     if op == 'bank_send':
         return '(SBankSend %s %s %s %s)' % (zhex(st['from_hex']), zhex(st['to_hex']), cb(st['denom']), Z(st['amount']))
+    if op == 'ibc_recv':
+        if st.get('hook_ok'):
+            return '(SHook %s %s %s)' % (zhex(st['receiver_hex']), cb(st['denom']), Z(st['amount']))
+        return 'SNoop'
     return 'SReload'
 
 
@@ -256,6 +271,32 @@ def sender_fee_signature(result, step):
     return False
 
 
+REASONS = [  # which exit of the code refused (measured from the error text, for the coverage figures only)
+    ('validate basic', 'validate_basic'), ('cannot mint a non-positive', 'validate_basic'),
+    ('invalid denom', 'validate_basic'), ('invalid sender', 'validate_basic'), ('invalid rec', 'validate_basic'),
+    ('invalid contract', 'validate_basic'), ('decoding bech32', 'validate_basic'), ('hex address', 'validate_basic'),
+    ('module is currently disabled', 'module_disabled'), ('not registered by id', 'pair_not_found'),
+    ('not registered', 'pair_not_found'), ('is not enabled by governance', 'pair_disabled'),
+    ('is not allowed to receive', 'blocked_receiver'), ('to an external address is currently disabled', 'send_disabled'),
+    ('failed to escrow', 'escrow_failed'), ('insufficient funds', 'insufficient_coins'),
+    ('unexpected Approval', 'approval_event'), ('failed to execute transfer', 'transfer_false'),
+    ('failed to execute unescrow', 'transfer_false'), ('invalid token balance', 'token_balance_check'),
+    ('invalid coin balance', 'coin_balance_check'), ('invalid escrowed token balance', 'escrow_balance_check'),
+    ('cannot read the escrowed', 'escrow_balance_unreadable'), ('failed to burn', 'burn_failed'),
+    ('execution reverted', 'evm_reverted'), ('EVM Call operation is disabled', 'evm_call_disabled'),
+    ('contract call failed', 'evm_failed'), ('abi:', 'abi_unpack'), ('improperly formatted output', 'abi_unpack'),
+    ('panic', 'panic'), ('nil pointer', 'panic'), ('overflow', 'panic'), ('negative coin amount', 'panic'),
+    ('account', 'no_account'), ('unauthorized', 'blocked_receiver'),
+]
+
+
+def reason(err):
+    for k, v in REASONS:
+        if k in err:
+            return v
+    return 'other'
+
+
 def coverage(run, results, mm, ff):
     dist = Counter()
     nontrivial = set()
@@ -279,35 +320,61 @@ def coverage(run, results, mm, ff):
                                                pre['bank'], [t['bals'] for t in pre['tokens']]]))
                 if st['class'] == 2:
                     dist['recovered_panics'] += 1
-            elif op in ('tok_transfer', 'tok_burn', 'bank_send'):
+                if st['class'] != 0:
+                    dist['%s_refused_%s' % (op, reason(st.get('err', '')))] += 1
+            elif op == 'ibc_recv':
+                pre = r['steps'][i - 1]['obs'] if i > 0 else r['init']
+                kind = 'undecodable' if not st.get('hook_ok') else 'nopair'
+                for p in pre['pairs']:
+                    if st.get('hook_ok') and st.get('denom') in p['denoms']:
+                        kind = 'owner%d_denoms%d' % (p['owner'], len(p['denoms']))
+                dist['ibc_recv_%s_class%d' % (kind, st['class'])] += 1
+                if st['class'] == 0:
+                    nontrivial.add(json.dumps(['hook', kind, st.get('amount'), st.get('receiver_hex'), pre['bank']]))
+                if st['class'] != 0 and st.get('hook_ok') and kind != 'nopair':
+                    dist['ibc_recv_failed_' + reason(st.get('err', ''))] += 1
+            elif op in ('tok_transfer', 'tok_burn', 'bank_send', 'tok_approve', 'tok_inc_allow', 'tok_dec_allow',
+                        'tok_transfer_from', 'tok_burn_from'):
                 dist['%s_class%d' % (op, st['class'])] += 1
     run.coverage.update(dict(
         evaluations=steps, histories=len(results), distinct_nontrivial=len(nontrivial),
         rule='every step of every history is executed on the real app (MsgConvertCoin/MsgConvertERC20 through '
-             'BaseApp.DeliverTx or the registered msg-service handler) and on the model, and the complete observed state '
-             'is compared; non-trivial = a conversion that succeeded; distinct = distinct (flow, pair kind, amount, '
-             'sender, receiver, balances before)',
+             'BaseApp.DeliverTx or the registered msg-service handler, ICS-20 packets through Keeper.OnRecvPacket) and on '
+             'the model, and the complete observed state is compared; non-trivial = a conversion that succeeded; '
+             'distinct = distinct (flow, pair kind, amount, sender, receiver, balances before)',
         distribution=dict(sorted(dist.items())), model_mismatches=len(mm), monitor_failures=len(ff),
         samples=[results[0]['spec'], results[-1]['spec']] if results else []))
     run.coverage['trusted_base'] += [
         'hand-written model Model/Convert.v tied to x/aggregate by this differential run (the generator bounds what it sees)',
         'modelled, not verified: cosmos-sdk bank keeper and sdk.Int, ethermint ApplyMessage/statedb, go-ethereum EVM + abi, '
-        'the byte code of ERC20MinterBurnerDecimals (specification: its Solidity source), BaseApp message atomicity',
+        'the byte code of ERC20MinterBurnerDecimals (executed by the real EVM in this run; NOT the 4.3.2 Solidity sources of the repo: '
+        'infinite-allowance semantics), BaseApp message atomicity',
         'external token contracts are oracle arguments of the model; the correspondence instantiates them with '
         'ERC20MinterBurnerDecimals, ERC20MaliciousDelayed, ERC20DirectBalanceManipulation and the hand-assembled AdvToken '
-        '(harness/cmd/c11/advtoken.go), all executed by the real EVM']
+        '(harness/cmd/c11/advtoken.go), all executed by the real EVM',
+        'translator tools/gotocoq/erc20abi (token ABI and EVM call sites of msg_server.go -> Gen/Erc20AbiGen.v)']
     run.assumptions += [
         'the token-pair registry is given state (its consistency is property C12); the backing theorems assume it '
         'well formed (a denomination is listed by at most one pair, the denom index agrees with the pairs)',
         'nobody holds a private key of the module account / module EVM address; the module never grants roles on or '
         'pauses the contracts it deploys',
         'no vesting (locked) coins on converting accounts',
-        'voucher backing: the external token reports balances honestly (balanceOf is a view of a ledger) and debits the '
-        'module at most what it credits the receiver; the second hypothesis is necessary (finding, Refuted/C11_refuted.v)']
+        'voucher backing (C11_voucher_backing): the external token reports balances honestly (balanceOf is a view of a '
+        'ledger) and no call other than the module\'s own transfer lowers the module\'s balance; both hypotheses are shown '
+        'necessary (Refuted/C11_refuted.v: misreporting token; user-deployed ERC20MinterBurnerDecimals whose deployer '
+        'burns the escrow) and satisfiable (C11_voucher_hypotheses_satisfiable); what the module\'s own transfer debits is '
+        'checked by the code since c5eeeaa',
+        'coins of "aggregate/..." denominations are minted by x/aggregate only (other modules\' mints are of other '
+        'denominations); the ICS-20 hook never runs for the module account (the transfer application refuses to credit a '
+        'blocked address)',
+        'the ICS-20 hook is modelled from the point where the packet decoded to (receiver of 20 bytes, hook denomination, '
+        'amount); JSON decoding, NewIntFromString, bech32 and the sha256 of the denomination trace are C16\'s oracles']
 
 
 def check(run):
     run.proof_stage()
+    if not run.quick():
+        run.coqchk_stage()
     ok, out = vlib.build_harness(['c11'])
     if not ok:
         run.violation(dict(kind='harness-build-failed', log=out[-3000:],
